@@ -96,7 +96,7 @@ def build_engines():
 
 def harness_sources(pid):
     h = os.path.join(VERIF, "harness")
-    files = [os.path.join(h, "prop_%s.cpp" % pid)]
+    files = [os.path.join(h, "prop_%s.cpp" % pid), os.path.abspath(__file__)]
     for sub in ("common", "ref", "gen"):
         p = os.path.join(h, sub)
         if os.path.isdir(p):
@@ -113,7 +113,8 @@ def build_prop(pid, variant="", want_fuzz=False, quiet=True):
     vflags = dict(spec.get("variants", {"": []}))[variant]
     tsan = spec.get("tsan", False)
     san = ["-fsanitize=thread"] if tsan else SAN
-    flags = BASEFLAGS + san + vflags + ["-I", os.path.join(REPO, "include"), "-I", cfginc, "-I", os.path.join(VERIF, "harness")]
+    flags = BASEFLAGS + san + vflags + ["-I", os.path.join(REPO, "include"), "-I", cfginc, "-I", os.path.join(VERIF, "harness"),
+                                       "-include", os.path.join(VERIF, "harness", "common", "st_hook.h")]
     srcs = harness_sources(pid)
     key = file_hash(tree_files(os.path.join(REPO, "include")) + [os.path.join(cfginc, "st_config.h")] + srcs, " ".join(flags) + REPO + eng["engine"])
     tag = pid + ("-" + variant if variant else "")
@@ -127,13 +128,13 @@ def build_prop(pid, variant="", want_fuzz=False, quiet=True):
         if old != d and re.fullmatch(r"prop-%s-[0-9a-f]{16}" % re.escape(tag), os.path.basename(old)):
             shutil.rmtree(old, ignore_errors=True)
     os.makedirs(d, exist_ok=True)
-    src = srcs[0]
+    src = srcs[0]   # prop_<pid>.cpp
     jobs = []
     if not os.path.exists(binp):
         jobs.append(("prop", [CXX] + flags + [src, eng["engine_tsan" if tsan else "engine"], "-lrapidcheck", "-lpthread", "-o", binp]))
     if want_fuzz and not os.path.exists(fuzzp):
-        fz = [f for f in flags if not f.startswith("-fsanitize=address")]
-        jobs.append(("fuzz", [CXX] + fz + ["-fsanitize=fuzzer,address,undefined", src, eng["fuzz"], "-o", fuzzp]))
+        fz = [("-fsanitize=fuzzer,address,undefined" if f.startswith("-fsanitize=address") else f) for f in flags]
+        jobs.append(("fuzz", [CXX] + fz + [src, eng["fuzz"], "-o", fuzzp]))
     procs = [(n, j, subprocess.Popen(j, stdout=subprocess.PIPE, stderr=subprocess.STDOUT, text=True)) for n, j in jobs]
     for n, j, p in procs:
         out, _ = p.communicate()
